@@ -26,9 +26,11 @@ RULE = (
     "Hypothesis draws a learning set (12-27 well-separated points: jittered Halton points in a box with drawn offset and "
     "width per input, 1-3 inputs, 1-2 outputs, smooth quadratic+sine target), a regressor (Linear with/without intercept and "
     "penalty, Polynomial degree 2-3, RBF x 7 kernels x epsilon factor x smooth, TPS, PCE degree 2, hard MOE with 2 clusters, "
-    "RegressorChain of 2 models, OT Gaussian process), input/output transformers on the whole groups (none, MinMaxScaler, "
+    "(local models optionally with their own scalers), RegressorChain of 2 models, OT Gaussian process), input/output transformers on the whole groups (none, MinMaxScaler, "
     "StandardScaler, Scaler(offset, coefficient), full-rank PCA, Pipeline of two) and query points inside the hull; transformers alone "
-    "additionally cover Power, BoxCox, YeoJohnson, full-rank PLS and full-rank KLSVD. "
+    "additionally cover Power, BoxCox, YeoJohnson, full-rank PLS and full-rank KLSVD (exact or randomized SVD, optionally after "
+    "another KLSVD instance fitted with a truncated randomized SVD in the same process). Half of the model cases re-train the "
+    "same object on a subset and compare it with a fresh object trained on that subset. "
     "Non-trivial = non-identity transformer or non-default kernel with >= 2 inputs; distinct = hash of the drawn case."
 )
 ASSUMPTIONS = [
@@ -73,7 +75,8 @@ def cases(draw, kinds=None):
     elif kind == "rbf":
         model.update(function=draw(st.sampled_from(KERNELS)), eps_factor=draw(st.sampled_from([None, None, 0.5, 1.5, 3.0])), smooth=draw(st.sampled_from([0.0, 0.0, 0.01])))
     elif kind == "moe":
-        model.update(hard=draw(st.sampled_from([True, True, False])), sub=draw(st.sampled_from(["LinearRegressor", "RBFRegressor"])))
+        model.update(hard=draw(st.sampled_from([True, True, False])), sub=draw(st.sampled_from(["LinearRegressor", "RBFRegressor"])),
+                     sub_transformer=draw(st.sampled_from(["none", "scalers", "scalers"])))
     elif kind == "chain":
         model.update(first=draw(st.sampled_from(["LinearRegressor", "PolynomialRegressor", "RBFRegressor"])), last_kernel=draw(st.sampled_from(KERNELS)))
     return {
@@ -178,10 +181,14 @@ def build_model(p, x, y):
     elif kind == "moe":
         model = factory.create("MOERegressor", ds, hard=m["hard"], **kw)
         model.set_clusterer("KMeans", n_clusters=2, random_state=0)
+        sub_kw = {}
+        if m.get("sub_transformer", "none") == "scalers":
+            # the local regressors have their own transformers (non-default setting)
+            sub_kw["transformer"] = {"inputs": make_transformer("minmax", d), "outputs": make_transformer("standard", q)}
         if m["sub"] == "RBFRegressor":
-            model.set_regressor("RBFRegressor", function="cubic")
+            model.set_regressor("RBFRegressor", function="cubic", **sub_kw)
         else:
-            model.set_regressor("LinearRegressor")
+            model.set_regressor("LinearRegressor", **sub_kw)
     elif kind == "chain":
         model = factory.create("RegressorChain", ds, **kw)
         if m["first"] == "PolynomialRegressor":
@@ -252,6 +259,23 @@ def case_model(p, ctx):
         ctx.cls("interpolating_model")
         ctx.check(err <= 1e-6 * yscale, "interpolate", f"{kind} {p['model']} does not reproduce its learning outputs: max error {err:.3e} (scale {yscale:.3g})",
                   tin=p["tin"], tout=p["tout"])
+    if kind == "moe" and p["model"]["hard"] and p["model"]["sub"] == "RBFRegressor":
+        # hard mixture of interpolating local models: every learning point that the classifier sends to its own cluster
+        # is reproduced, and the prediction is the one of the local model of the predicted class
+        labels = np.asarray(model.labels).ravel()
+        klass = np.asarray(model.predict_class(x.copy())).ravel().astype(int)
+        own = klass == labels
+        pred = np.asarray(model.predict(x.copy()))
+        ctx.cls("moe_interpolating_local_models")
+        if own.any():
+            err = float(np.abs(pred[own] - y[own]).max())
+            ctx.check(err <= 1e-6 * yscale, "interpolate", f"hard MOE of interpolating RBF models does not reproduce its learning outputs: max error {err:.3e} (scale {yscale:.3g})",
+                      tin=p["tin"], tout=p["tout"], sub_transformer=p["model"].get("sub_transformer"))
+        for k in sorted(set(klass.tolist())):
+            sel = klass == k
+            loc = np.asarray(model.predict_local_model(x[sel].copy(), int(k)))
+            ctx.check(np.abs(loc - pred[sel]).max() <= 1e-9 * yscale, "moe_local_model",
+                      f"hard MOE prediction differs from the local model {k} of the predicted class by {np.abs(loc - pred[sel]).max():.3e}")
     # ---- Jacobian versus stencil
     expects_reject = per_variable or (kind == "moe" and not p["model"]["hard"])
     for uq in p["query"]:
@@ -302,11 +326,28 @@ def case_model(p, ctx):
         ctx.check(blk.shape == (q, 1) and np.abs(blk[:, 0] - j0[:, j]).max() <= 1e-13 * max(1.0, np.abs(j0).max()), "discipline",
                   f"SurrogateDiscipline.linearize d y/d {n} = {blk.ravel()}, model.predict_jacobian column {j0[:, j]}")
     # ---- re-training of the same object on a subset of the learning samples: the Jacobian must follow the new model
-    # (not generated for MOE: its clustering changes; not for PCE / OT-GP: cost)
-    if p.get("relearn") and kind in ("linear", "poly", "rbf", "tps", "chain"):
+    # and equal a fresh object's (the stencil part is not run for MOE: piecewise; nothing for PCE / OT-GP: cost)
+    if p.get("relearn") and kind in ("linear", "poly", "rbf", "tps", "chain", "moe"):
         keep = [i for i in range(len(x)) if i % 3 != 1]
-        model.learn(samples=keep)
-        ctx.cls("relearned_on_a_subset")
+        fresh, _ = build_model(p, x, y)
+        try:
+            fresh.learn(samples=keep)
+        except Exception:  # noqa: BLE001
+            ctx.cls("relearn_subset_not_learnable_skipped")
+            fresh = None
+        if fresh is not None:
+            model.learn(samples=keep)
+            ctx.cls("relearned_on_a_subset")
+            # history independence: the re-trained object is the model a fresh object learns from the same samples
+            pts = np.vstack([xb, x[keep][:6]])
+            pa, pf = np.asarray(model.predict(pts.copy())), np.asarray(fresh.predict(pts.copy()))
+            ctx.check(pa.shape == pf.shape and np.abs(pa - pf).max() <= 1e-9 * yscale, "retrained_equals_fresh",
+                      f"after learn(samples=subset) the predictions differ from those of a fresh {kind} model trained on the same subset by {np.abs(pa - pf).max():.3e} for {p['model']}")
+            if not expects_reject:
+                ja, jf = np.asarray(model.predict_jacobian(pts.copy())), np.asarray(fresh.predict_jacobian(pts.copy()))
+                ctx.check(ja.shape == jf.shape and np.abs(ja - jf).max() <= 1e-9 * max(1.0, np.abs(jf).max()), "retrained_equals_fresh",
+                          f"after learn(samples=subset) the Jacobians differ from those of a fresh {kind} model trained on the same subset by {np.abs(ja - jf).max():.3e}")
+    if p.get("relearn") and kind in ("linear", "poly", "rbf", "tps", "chain") and fresh is not None:
         xq = xb[-1]
         jac2 = np.asarray(model.predict_jacobian(xq.copy()))
         ref2, disc2 = stencil(lambda z: np.asarray(model.predict(z.copy())), xq, 2e-3 * wid)
@@ -340,6 +381,8 @@ def transformer_cases(draw):
         "jitter": draw(st.lists(st.integers(-3, 3), min_size=8, max_size=8)),
         "mix": draw(st.lists(st.sampled_from([0.0, 0.3, -0.4, 0.7]), min_size=3, max_size=3)),
         "query": draw(st.lists(st.sampled_from([0.2, 0.35, 0.5, 0.65, 0.8]), min_size=3, max_size=3)),
+        # KLSVD only: history across instances (its OpenTURNS settings are process-wide) and SVD variant
+        "klsvd_prelude": draw(st.booleans()), "klsvd_random": draw(st.booleans()),
     }
 
 
@@ -379,7 +422,12 @@ def case_transformer(p, ctx):
         from gemseo.mlearning.transformers.dimension_reduction.klsvd import KLSVD
 
         mesh = np.linspace(0.0, 1.0, dim)[:, None] if dim > 1 else np.array([[0.0]])
-        tr = KLSVD(mesh, n_components=dim)  # full rank: a lossless linear reduction
+        if p.get("klsvd_prelude") and dim > 1:
+            # another instance fitted before in the same process, with a truncated randomized SVD
+            ctx.cls("klsvd_after_a_truncated_randomized_instance")
+            KLSVD(mesh, use_random_svd=True, n_singular_values=1).fit(data.copy())
+        # full rank: a lossless linear reduction, with the exact SVD or the randomized one at OpenTURNS' default rank
+        tr = KLSVD(mesh, n_components=dim, use_random_svd=bool(p.get("klsvd_random")))
     else:
         tr = make_transformer(name, dim)
     ctx.cls(f"transformer_{name}")
@@ -426,9 +474,11 @@ def case_transformer(p, ctx):
     ctx.sample({"oracle": "transformer", "name": name, "dim": dim, "n": n})
 
 
-ORACLES = {"model": case_model, "transformer": case_transformer}
+ORACLES = {"model": case_model, "model_composite": case_model, "transformer": case_transformer}
 
 
 def run(ctx):
     ctx.drive("model", cases(), case_model, quick=350, thorough=2500)
+    # composite models get their own budget (the uniform draw above reaches them too rarely)
+    ctx.drive("model_composite", cases(kinds=["moe", "moe", "chain"]), case_model, quick=60, thorough=500)
     ctx.drive("transformer", transformer_cases(), case_transformer, quick=400, thorough=4000)
